@@ -2938,3 +2938,192 @@ func ruleBufView(prog *Program, rep *Report, floor int, rels ...string) {
 	rep.Rules = append(rep.Rules, "D-bufview: no method stores a slice of one of its []byte parameters in a receiver field ("+strings.Join(rels, ", ")+"): scratch fields that outlive a buffer hold copies")
 	runSynRule(prog, rep, "D-bufview", rels, matchBufView, fixtureBufView, 1, floor)
 }
+
+// ---------------------------------------------------------------- E-memoguard
+
+// matchMemoGuard: a method that calls itself and records what it has handled in a map field of its receiver
+// (a registry keyed by type) terminates on cyclic input only because it returns early for an entry that is
+// already there. The structural necessary condition: before the first self-call there is a lookup v := r.M[k]
+// (or r.M[k] in a condition) and a return on the "found" side of a nil test of that value - in the body of
+// `if v != nil ...`, or at the top level of the else branch of `if v == nil ...`.
+func matchMemoGuard(files []*ast.File, info *types.Info) (sites []synSite, examined int) {
+	for _, f := range files {
+		for _, d := range f.Decls {
+			fd, ok := d.(*ast.FuncDecl)
+			if !ok || fd.Body == nil || fd.Recv == nil || len(fd.Recv.List) != 1 || len(fd.Recv.List[0].Names) != 1 {
+				continue
+			}
+			self := info.Defs[fd.Name]
+			recv := info.Defs[fd.Recv.List[0].Names[0]]
+			memoField := func(e ast.Expr) string {
+				ix, ok := ast.Unparen(e).(*ast.IndexExpr)
+				if !ok {
+					return ""
+				}
+				sel, ok := ast.Unparen(ix.X).(*ast.SelectorExpr)
+				if !ok {
+					return ""
+				}
+				id, ok := ast.Unparen(sel.X).(*ast.Ident)
+				if !ok || info.Uses[id] != recv {
+					return ""
+				}
+				if _, isMap := info.TypeOf(sel).Underlying().(*types.Map); !isMap {
+					return ""
+				}
+				return sel.Sel.Name
+			}
+			var firstSelf token.Pos
+			written := map[string]bool{}
+			ast.Inspect(fd.Body, func(n ast.Node) bool {
+				switch x := n.(type) {
+				case *ast.CallExpr:
+					if sel, ok := ast.Unparen(x.Fun).(*ast.SelectorExpr); ok && info.Uses[sel.Sel] == self {
+						if firstSelf == token.NoPos || x.Pos() < firstSelf {
+							firstSelf = x.Pos()
+						}
+					}
+				case *ast.AssignStmt:
+					for _, l := range x.Lhs {
+						if m := memoField(l); m != "" {
+							written[m] = true
+						}
+					}
+				}
+				return true
+			})
+			if firstSelf == token.NoPos || len(written) == 0 {
+				continue
+			}
+			examined++
+			// variables holding a looked-up entry
+			entry := map[types.Object]bool{}
+			ast.Inspect(fd.Body, func(n ast.Node) bool {
+				as, ok := n.(*ast.AssignStmt)
+				if !ok || len(as.Rhs) != 1 {
+					return true
+				}
+				if m := memoField(as.Rhs[0]); m != "" && written[m] {
+					if id, ok := as.Lhs[0].(*ast.Ident); ok {
+						o := info.Defs[id]
+						if o == nil {
+							o = info.Uses[id]
+						}
+						if o != nil {
+							entry[o] = true
+						}
+					}
+				}
+				return true
+			})
+			nilTest := func(cond ast.Expr, op token.Token) bool {
+				found := false
+				ast.Inspect(cond, func(n ast.Node) bool {
+					be, ok := n.(*ast.BinaryExpr)
+					if !ok || be.Op != op {
+						return true
+					}
+					isNil := func(e ast.Expr) bool {
+						id, ok := ast.Unparen(e).(*ast.Ident)
+						return ok && id.Name == "nil"
+					}
+					isEntry := func(e ast.Expr) bool {
+						if id, ok := ast.Unparen(e).(*ast.Ident); ok && entry[info.Uses[id]] {
+							return true
+						}
+						m := memoField(e)
+						return m != "" && written[m]
+					}
+					if (isEntry(be.X) && isNil(be.Y)) || (isNil(be.X) && isEntry(be.Y)) {
+						found = true
+					}
+					return true
+				})
+				return found
+			}
+			topReturn := func(list []ast.Stmt) bool {
+				for _, s := range list {
+					if _, ok := s.(*ast.ReturnStmt); ok {
+						return true
+					}
+				}
+				return false
+			}
+			guarded := false
+			ast.Inspect(fd.Body, func(n ast.Node) bool {
+				is, ok := n.(*ast.IfStmt)
+				if !ok || is.Pos() > firstSelf {
+					return true
+				}
+				if is.Init != nil {
+					// if c := r.M[k]; c != nil { return }
+					if as, ok := is.Init.(*ast.AssignStmt); ok && len(as.Rhs) == 1 {
+						if m := memoField(as.Rhs[0]); m != "" && written[m] {
+							if id, ok := as.Lhs[0].(*ast.Ident); ok && info.Defs[id] != nil {
+								entry[info.Defs[id]] = true
+							}
+						}
+					}
+				}
+				if nilTest(is.Cond, token.NEQ) && topReturn(is.Body.List) {
+					guarded = true
+				}
+				if eb, ok := is.Else.(*ast.BlockStmt); ok && nilTest(is.Cond, token.EQL) && topReturn(eb.List) {
+					guarded = true
+				}
+				return true
+			})
+			if !guarded {
+				name := enclosingFuncName(f, fd.Pos())
+				var ms []string
+				for m := range written {
+					ms = append(ms, m)
+				}
+				sort.Strings(ms)
+				sites = append(sites, synSite{pos: firstSelf, file: f, key: fmt.Sprintf("%s:recursion-without-found-return:%s", name, strings.Join(ms, ",")),
+					msg: fmt.Sprintf("%s records what it has handled in %s and calls itself, but no return on the found side of a lookup in that map precedes the self-call: a type that refers to itself (through a slice, map or pointer) is walked without end", name, strings.Join(ms, ", "))})
+			}
+		}
+	}
+	return
+}
+
+const fixtureMemoGuard = `package fixture
+
+type entry struct{ kids []string }
+type reg struct{ m map[string]*entry }
+
+func (r *reg) good(k string, kids []string) *entry {
+	c := r.m[k]
+	if c == nil {
+		c = &entry{kids: kids}
+		r.m[k] = c
+	} else {
+		return c
+	}
+	for _, kid := range kids {
+		r.good(kid, nil)
+	}
+	return c
+}
+
+func (r *reg) bad(k string, kids []string) *entry {
+	c := r.m[k]
+	if c == nil {
+		c = &entry{kids: kids}
+		if len(kids) == 0 {
+			return c
+		}
+		r.m[k] = c
+	}
+	for _, kid := range kids {
+		r.bad(kid, nil)
+	}
+	return c
+}
+`
+
+func ruleMemoGuard(prog *Program, rep *Report, floor int, rels ...string) {
+	rep.Rules = append(rep.Rules, "E-memoguard: a method that calls itself and records handled keys in a map field of its receiver returns, before the first self-call, on the found side of a nil test of a lookup in that map ("+strings.Join(rels, ", ")+")")
+	runSynRule(prog, rep, "E-memoguard", rels, matchMemoGuard, fixtureMemoGuard, 1, floor)
+}
